@@ -76,6 +76,8 @@ impl<T: RealNumber> NBDistribution<T> for GaussianNBDistribution<T> {
                 forall|a: T, b: T| *(#[trigger] a.add_assign_spec(b)) == a.add_spec(b),
                 self.wf(), class_index < self.class_labels@.len(), j.vview().len() == self.nf(),
                 likelihood == gauss_ll(j.vview(), self.theta@[class_index as int]@, self.var@[class_index as int]@, feature as int), //# inv-partial-sum-of-gaussian-log-densities
+//@loopbody 1
+            proof { T::ops_total(); }   // all operator facts inside the body (robust against `x += y` <-> `x = x + y` rewrites)
 //@end
 //@extract src/naive_bayes/gaussian.rs :: impl<T: RealNumber, M: Matrix<T>> NBDistribution<T, M> for GaussianNBDistribution<T> :: classes :: ret=r
 //@spec
